@@ -44,6 +44,16 @@ func (c latencyCase) run(m *lib.Monitor) (maxLatency time.Duration) {
 		return c.valueBP(m)
 	case "value-bp-timeout":
 		return c.valueTimeout(m)
+	case "value-churn-lossy":
+		c.valueChurn(m, false)
+	case "value-churn-bp":
+		c.valueChurn(m, true)
+	case "collection-churn":
+		c.collectionChurn(m)
+	case "collection-bp-pause-update":
+		c.collectionPause(m, false)
+	case "collection-bp-pause-delete":
+		c.collectionPause(m, true)
 	case "collection-stress":
 		return c.collectionStress(m)
 	case "value-stress":
@@ -490,11 +500,14 @@ loop:
 }
 
 func runLatency(f lib.Flags, res *lib.Result) {
-	mon := res.Monitor("writers-and-subscribers", "real Value/Collection with real Pull subscribers: with an idle lossy subscriber every Set/Update/Delete returns (bound 2s, latencies recorded) and on reading the subscriber gets the most recent value / a per-id chained stream folding to List; with backpressure Set does not return before the subscriber receives, and nothing is dropped or reordered while it keeps receiving; free-running stress (one writer at full speed, a lossy subscriber with seeded random pauses): the received stream chains per id / is in write order and ends, after a fence, in the collection's view / the last value; thorough: a never-read backpressured Pull makes Set return an error after ~5s; distinct = scenario and seed")
+	mon := res.Monitor("writers-and-subscribers", "real Value/Collection with real Pull subscribers: with an idle lossy subscriber every Set/Update/Delete returns (bound 2s, latencies recorded) and on reading the subscriber gets the most recent value / a per-id chained stream folding to List; with backpressure Set does not return before the subscriber receives, and nothing is dropped or reordered while it keeps receiving; subscriber churn while a write is parked in Bus.Send behind a non-receiving backpressure subscriber (another subscription cancelled, a new one opened): the new subscriber receives the later writes (latest if lossy, all in order with backpressure); free-running stress (one writer at full speed, a lossy subscriber with seeded random pauses): the received stream chains per id / is in write order and ends, after a fence, in the collection's view / the last value; thorough: a never-read backpressured Pull makes Set return an error after ~5s; distinct = scenario and seed")
 	cases := []latencyCase{
 		{Kind: "latency", What: "value-idle", N: f.N(200, 2000)},
 		{Kind: "latency", What: "collection-idle", N: f.N(200, 2000)},
 		{Kind: "latency", What: "value-bp", N: f.N(100, 1000)},
+		{Kind: "latency", What: "value-churn-lossy"},
+		{Kind: "latency", What: "value-churn-bp"},
+		{Kind: "latency", What: "collection-churn"},
 	}
 	for i := 0; i < f.N(10, 100); i++ {
 		cases = append(cases, latencyCase{Kind: "latency", What: "collection-stress", N: f.N(300, 1500), Seed: f.Seed*1000 + int64(i)})
